@@ -47,6 +47,9 @@ func ParseCSRResponse(signPrivateKey *sm2.PrivateKey, der []byte) (CSRResponse, 
 	if err != nil || len(rest) > 0 {
 		return result, errors.New("smx509: invalid CSRResponse asn1 data")
 	}
+	if len(resp.SignCerts) == 0 {
+		return result, errors.New("smx509: no sign certificate")
+	}
 
 	signCerts := make([]*Certificate, len(resp.SignCerts))
 	for i, rawCert := range resp.SignCerts {
